@@ -14,6 +14,10 @@
 (*  * the BODY the server answers with is a call dimension: a JSON object  *)
 (*    that fits the declared schema, a JSON array, a JSON string, JSON     *)
 (*    null, an empty body, an HTML page (Bodies);                          *)
+(*  * the way the document writes the responses down (Modes: inline, by    *)
+(*    reference to components/responses, one shared component for several  *)
+(*    status codes and operations) is a rendering dimension: no outcome    *)
+(*    function depends on it, the replay varies it;                        *)
 (*  * IMPLEMENTATION-SHAPED outcome functions, one per place where the     *)
 (*    code decides (variant "as_is"):                                      *)
 (*      TransportExc     http_transport.py:193-202 - for status < 200 or   *)
@@ -117,6 +121,15 @@ HasSuccess(d) == \E c \in Codes(d) : Is2xx(c)
 Firsts(d, allOrders) == IF allOrders \/ ~HasSuccess(d) THEN d ELSE {CanonFirst(d)}
 Scenarios(members, max, allOrders) ==
   UNION {{[d |-> d, first |-> f] : f \in Firsts(d, allOrders)} : d \in DeclSets(members, max)}
+
+\* HOW the document writes the responses down is a rendering dimension the outcome must not depend on (none of the
+\* outcome functions below takes it): "inline" = every response object in place; "ref" = every response is a `$ref` to
+\* its own `#/components/responses/...` entry; "shared" = all responses with the same body (none / JSON body) are `$ref`s to
+\* ONE shared entry, which a second operation of the document references as well (state carried from one response's
+\* parse to the next, and from one operation's to the next)
+Modes == <<"inline", "ref", "shared">>
+\* stratification: every scenario gets a rotation 0..2; rendering of the k-th package generated for it = Modes[(rot+k)%3+1]
+Rot(sc) == (FoldSet(LAMBDA m, acc : acc + Rank(m), 0, sc.d) + Rank(sc.first)) % 3
 
 ClassName(s) == CASE s \in 100..199 -> "1xx" [] s \in 200..299 -> "2xx" [] s \in 300..399 -> "3xx"
                   [] s \in 400..499 -> "4xx" [] s \in 500..599 -> "5xx" [] OTHER -> "other"
